@@ -283,9 +283,24 @@ class Check(object):
             self.obligation('theorem:<none found in %s>' % props_v, False, 'no Theorem in Props file')
         self.coverage['theorems'] = theorems
         self.coverage['print_assumptions'] = assum
+        if okay and self.tier == 'thorough':
+            self.coqchk('DTN.Props.' + self.prop_id)
         if not okay:
             self.coq_failure = self._first_error(out)
         return okay
+
+    def coqchk(self, module, timeout=1500):
+        ''' Independent re-check of the compiled property file and everything it depends on;
+        records the axioms coqchk reports (thorough tier). '''
+        (ret, out) = self._run(['coqchk', '-silent', '-o', '-Q', '.', 'DTN', module], timeout)
+        axioms = ''
+        mat = re.search(r'\* Axioms:\s*(.*?)(?:\n\s*\*|\Z)', out, flags=re.S)
+        if mat:
+            axioms = ' '.join(mat.group(1).split())
+        self.obligation('coqchk:%s' % module, ret == 0, out[-600:] if ret != 0 else '')
+        self.trusted_base.append('coqchk -o %s: exit %d; axioms: %s' % (module, ret, axioms or '<none>'))
+        self.coverage['coqchk'] = dict(module=module, ok=(ret == 0), axioms=axioms or '<none>', tail=out[-400:])
+        return ret == 0
 
     @staticmethod
     def _first_error(out):
